@@ -158,14 +158,19 @@ SStep(st, lb) ==
     [] lb.op \in {"mergeSame", "mergeOther"} ->
          \* every element of the source without an equivalent in the destination moves over, the others stay
          IF c = d THEN SR(st, SNoRet)
+         \* (the source is walked in its own order; an element stays when the destination - as it is by then - holds
+         \*  an equivalent one: with a destination comparator coarser than the source's, two source elements may be
+         \*  equivalent to each other for the destination, and only the first of them moves)
          ELSE LET y == st.s[d]
-                  moved == SelectSeq(y.elems, LAMBDA e : ~Has(x, e))
                   \* SmallSet::merge from a large source first moves the destination's own elements to its backing set
                   x1 == IF SFlav[c] = "small" /\ y.large /\ ~x.large THEN [Grow(x) EXCEPT !.large = TRUE] ELSE x
-                  x2 == InsertAllC(c, x1, moved)
+                  mf == FoldLeft(LAMBDA acc, e : IF Has(acc.x, e) THEN [acc EXCEPT !.stay = Append(@, e)]
+                                                 ELSE [x |-> InsertOneC(c, acc.x, e), stay |-> acc.stay],
+                                 [x |-> x1, stay |-> <<>>], y.elems)
+                  x2 == mf.x
                   x3 == IF SFlav[c] = "small" /\ y.large THEN [x2 EXCEPT !.large = (x2.elems # <<>>)] ELSE x2
               IN SR([st EXCEPT !.s[c] = SetPri(c, x.pri /\ y.pri, x3),
-                               !.s[d] = RemoveIf(d, y, LAMBDA e : ~Has(x, e))], SNoRet)
+                               !.s[d] = Norm(d, [y EXCEPT !.elems = mf.stay])], SNoRet)
     [] lb.op = "swap" ->
          LET y == st.s[d]
              p == x.pri /\ y.pri
